@@ -955,6 +955,23 @@ fn eval_explore(kind: &str, w: &[&str]) -> Out {
             let (_, obs) = guard(|| { let mut x = pa.clone(); let r1 = x.merge(pb.clone()).is_ok(); if r1 { explore_pset(&x); } let mut y = pb.clone(); let _ = y.merge(pa.clone()); });
             finish("total".into(), &obs, None, None)
         }
+        "x-mergeshape" => {
+            // two PSETs built in memory (the decoder would refuse an output without amount and asset), neither with a unique id, of the given map counts
+            if w.len() != 7 { return Out::ok("harnesserr args".into()); }
+            let n: Vec<usize> = w[2..6].iter().filter_map(|x| x.parse().ok()).collect();
+            let Ok(seed) = w[6].parse::<u64>() else { return Out::ok("harnesserr seed".into()) };
+            if n.len() != 4 || n.iter().any(|x| *x > 8) { return Out::ok("harnesserr shape".into()); }
+            let mut rng = <ChaCha20Rng as rand::SeedableRng>::seed_from_u64(seed);
+            let mut build = |ni: usize, no: usize| -> Pset {
+                let mut p = Pset::new_v2();
+                for k in 0..ni { p.add_input(elements::pset::Input::from_prevout(elements::OutPoint::new(elements::Txid::from_byte_array(r32(&mut rng)), k as u32))); }
+                for _ in 0..no { p.add_output(elements::pset::Output { script_pubkey: elements::Script::from(vec![0x51]), ..Default::default() }); }
+                p
+            };
+            let (pa, pb) = (build(n[0], n[1]), build(n[2], n[3]));
+            let (_, obs) = guard(|| { let mut x = pa.clone(); let _ = x.merge(pb.clone()); let mut y = pb.clone(); let _ = y.merge(pa.clone()); });
+            finish("total".into(), &obs, None, None)
+        }
         "x-blind" => {
             // Transaction::blind with arbitrary (unbalanced, mismatched) secrets
             if w.len() != 5 { return Out::ok("harnesserr args".into()); }
